@@ -10,7 +10,8 @@
   was.  The source model and the caller's dictionaries are not modified, and with weight transfer
   requested the new model starts from the source weights.
 
-  This file holds ONLY property theorems (and non-vacuity examples).  Model:
+  This file holds the property theorems `C12_*`, the `*_spec` lemmas they are assembled from and
+  non-vacuity examples.  Model:
   QKV.Model.Rewrite (`rewrite : Flags → Dict → List PyVal → Except Err (List PyVal)`, the loop of
   utils.py:728-1012 over the JSON layer list).  Layer lists are arbitrary (unbounded length,
   arbitrary JSON values); every theorem is about every position of the list.
@@ -18,7 +19,9 @@
   What is a theorem here and what is runtime:
    * theorems: length / names / order / every untouched top-level key (inbound_nodes = topology) /
      every config key outside the quantizer keys; untouched layers; selected layers' class and
-     quantizer keys; precedence; bias-less; the recorded defects as `_counterexample`s.
+     quantizer keys (Dense/Conv, SeparableConv, recurrent, BatchNormalization, pooling, Activation,
+     ReLU family); precedence; bias-less; the repaired defects as `_fixed_witness`es and the one
+     defect that is still recorded (folding) as `_counterexample`.
    * runtime (checked on the real code by the harness, not provable about a pure function):
      "source model and dictionaries not modified", output shapes, weight transfer, and what the
      Q-layer classes build from the strings.  `rewrite` is a pure function of its arguments, which
@@ -204,7 +207,8 @@ example : (rewrite F0 qcBoth [dense0]).toOption.map (fun ls => ls.map fun l =>
     = some [(some (.str "QDense"), some (.str "ternary()"), some .none, some (.str "quantized_relu(4)"),
              some (.num 3 0))] := by rfl
 
-/-! ## selected weight layers (Dense / Conv* / Separable*, no folding): class and quantizer keys -/
+/-! ## selected weight layers (Dense / Conv1D / Conv2D / Conv2DTranspose, no folding): class and
+    quantizer keys -/
 
 theorem actStep_spec {look : Look} {qn bits : String} {l l' : PyVal} (h : actStep look qn bits l = .ok l') :
     Eff ["activation"] [] l l' ∧
@@ -249,7 +253,7 @@ theorem fixRegistered_spec {l l' : PyVal} {st : Option String} (h : fixRegistere
     Eff [] ["registered_name"] l l' :=
   Ok_fixRegistered (Eff.refl _ _ l) (by simp) l' h
 
-/-- A Dense / Conv1D / Conv2D / Conv2DTranspose / SeparableConv* layer whose kernel-quantizer
+/-- A Dense / Conv1D / Conv2D / Conv2DTranspose layer whose kernel-quantizer
     lookup (name entry first, then the class entry `"Q" + class`) is not None becomes
     `"Q" + class`; its `kernel_quantizer` is that lookup result; its `bias_quantizer` is the
     bias lookup when `use_bias` is truthy and None otherwise; its `activation` is the
@@ -382,6 +386,7 @@ theorem C12_quantize_activation (d : Dict) (bits : String) :
 /-- the class keys under which a layer of class `cn` can be selected -/
 def classKeys (cn : String) : List String :=
   if cn ∈ denseLike ∨ cn = "DepthwiseConv2D" then ["Q" ++ cn, "Q" ++ cn ++ "Batchnorm"]
+  else if cn = "SeparableConv1D" ∨ cn = "SeparableConv2D" then ["Q" ++ cn]
   else if cn = "SimpleRNN" ∨ cn = "LSTM" ∨ cn = "GRU" then ["Q" ++ cn]
   else if cn = "Bidirectional" then ["QBidirectional"]
   else if cn = "Activation" then ["QActivation", "QAdaptiveActivation"]
@@ -502,6 +507,31 @@ theorem quantizeRnn_unselected' {look : Look} {bits : String} {l l' : PyVal} {cn
   cases h
   rfl
 
+theorem sepBranch_unselected {F : Flags} {look : Look} {l : PyVal} {cn : String}
+    {r : PyVal × Option String × Bool} (h1 : ∀ p, look ("Q" ++ cn) p = .ok .none)
+    (h : sepBranch F look cn l = .ok r) : r.1 = l ∧ r.2.2 = false := by
+  unfold sepBranch at h
+  obtain ⟨dq, hdq, h⟩ := bind_ok h
+  rw [h1] at hdq
+  cases hdq
+  obtain ⟨pq, _, h⟩ := bind_ok h
+  obtain ⟨c1, _, h⟩ := bind_ok h
+  obtain ⟨ub, _, h⟩ := bind_ok h
+  obtain ⟨bq, _, h⟩ := bind_ok h
+  cases h
+  exact ⟨rfl, rfl⟩
+
+theorem bidirBranch_unselected {F : Flags} {look : Look} {st : Option String} {l : PyVal}
+    {r : PyVal × Option String × Bool}
+    (h1 : look "QBidirectional" (some "kernel_quantizer") = .ok .none)
+    (h : bidirBranch F look st l = .ok r) : r.1 = l ∧ r.2.2 = false := by
+  unfold bidirBranch at h
+  obtain ⟨kq, hkq, h⟩ := bind_ok h
+  rw [h1] at hkq
+  cases hkq
+  cases h
+  exact ⟨rfl, rfl⟩
+
 theorem activationBranch_unselected {F : Flags} {look : Look} {st : Option String} {l : PyVal}
     {r : PyVal × Option String × Bool}
     (h1 : look "QActivation" none = .ok .none) (h2 : look "QAdaptiveActivation" none = .ok .none)
@@ -559,48 +589,92 @@ def popped (l : PyVal) : PyVal :=
   | .dict d => .dict (derase d "registered_name")
   | v => v
 
-theorem fixRegistered_falsy {l l' : PyVal} {st : Option String}
-    (hreg : truthy ((pget l "registered_name").getD .none) = false) (h : fixRegistered l st = .ok l') :
-    l' = popped l := by
+/-- the value of the layer after the end-of-body pop + re-insertion of a truthy `registered_name`
+    (a registered custom class): the same dict, with the entry moved to the end -/
+def reRegistered (l : PyVal) : PyVal :=
+  match l with
+  | .dict d => .dict (dset (derase d "registered_name") "registered_name" ((dget d "registered_name").getD .none))
+  | v => v
+
+/-- `popped` / `reRegistered` are the same layer as far as any lookup can tell -/
+theorem pget_popped (l : PyVal) (k : String) (hk : k ≠ "registered_name") : pget (popped l) k = pget l k := by
+  cases l <;> first | rfl | exact dget_derase_ne _ hk
+
+theorem pget_reRegistered (l : PyVal) (k : String)
+    (hreg : k = "registered_name" → ∃ v, pget l "registered_name" = some v) :
+    pget (reRegistered l) k = pget l k := by
+  cases l with
+  | dict d =>
+    by_cases hk : k = "registered_name"
+    · subst hk
+      obtain ⟨v, hv⟩ := hreg rfl
+      simp only [pget_dict] at hv
+      simp [reRegistered, dget_dset_same, hv]
+    · simp only [reRegistered, pget_dict]
+      rw [dget_dset_ne _ _ hk, dget_derase_ne _ hk]
+  | _ => rfl
+
+/-- end-of-body fix-up of a layer that kept its class (`q_name = None`): a falsy
+    `registered_name` is popped, a truthy one is put back unchanged -/
+theorem fixRegistered_none {l l' : PyVal} (h : fixRegistered l none = .ok l') :
+    (truthy ((pget l "registered_name").getD .none) = false ∧ l' = popped l) ∨
+    (truthy ((pget l "registered_name").getD .none) = true ∧ l' = reRegistered l) := by
   unfold fixRegistered at h
   obtain ⟨r, hr, h⟩ := bind_ok h
   obtain ⟨l1, reg⟩ := r
-  obtain ⟨_, _, hreg'⟩ := popReg_spec hr
-  subst hreg'
-  dsimp only at h
-  rw [hreg] at h
-  simp at h
-  cases h
   unfold popReg at hr
   split at hr
+  · rename_i d
+    cases hr
+    dsimp only at h
+    by_cases ht : truthy ((dget d "registered_name").getD .none) = true
+    · right
+      simp only [ht, if_true] at h
+      unfold setItem at h
+      cases h
+      exact ⟨ht, rfl⟩
+    · left
+      simp only [ht] at h
+      cases h
+      exact ⟨by simpa using ht, rfl⟩
   · cases hr
-    rfl
-  · cases hr
+
+theorem unsel_pack {l l1 : PyVal} {st1 : Option String} {fin : Bool}
+    (h : (l1, st1, fin).1 = l ∧ (l1, st1, fin).2.2 = false) : l1 = l ∧ (fin = true → st1 = none) := by
+  obtain ⟨h1, h2⟩ := h
+  dsimp only at h1 h2
+  subst h2
+  exact ⟨h1, fun hf => by cases hf⟩
 
 /-- A layer that neither its name nor any of its class keys selects is left as it was: the
     result is the layer itself, or the layer with its null `registered_name` entry popped (a key
-    Keras reads with `.get`).  Hypotheses: no folding (see `C12_folding_unselected_counterexample`),
-    not a Bidirectional wrapper (see `C12_untouched_bidirectional_counterexample`), and a
-    `registered_name` that is absent / null (see `C12_registered_counterexample`). -/
+    Keras reads with `.get`), or — for a registered custom class — the layer with its
+    `registered_name` entry popped and put back with the same value (`reRegistered`, equal as a
+    Python dict, see `pget_reRegistered`).  After the fix round this holds for every class
+    (Bidirectional included) and every `registered_name`; the one remaining hypothesis is
+    "no folding" (see `C12_folding_unselected_counterexample`, still recorded). -/
 theorem C12_untouched_partial (F : Flags) (hF : F.folding = false) (qc : Dict) (st st' : Option String)
-    (l l' : PyVal) (cn n : String) (hns : NotSelected qc l cn n) (hnb : cn ≠ "Bidirectional")
-    (hreg : truthy ((pget l "registered_name").getD .none) = false)
-    (h : step F qc st l = .ok (l', st')) : l' = l ∨ l' = popped l := by
+    (l l' : PyVal) (cn n : String) (hns : NotSelected qc l cn n)
+    (h : step F qc st l = .ok (l', st')) :
+    l' = l ∨ (truthy ((pget l "registered_name").getD .none) = false ∧ l' = popped l) ∨
+      (truthy ((pget l "registered_name").getD .none) = true ∧ l' = reRegistered l) := by
   have hlook : ∀ q ∈ classKeys cn, ∀ p, getConfig qc l q p = .ok .none :=
     fun q hq p => getConfig_notSelected hns q hq p
   unfold step stepCore at h
   obtain ⟨r, hb, h⟩ := bind_ok h
   obtain ⟨l1, st1, fin⟩ := r
-  -- it is enough to show that the branch returns the layer itself
-  suffices hl1 : l1 = l by
-    subst hl1
+  -- it is enough to show that the branch returns the layer itself (and q_name = None at the end)
+  suffices hl1 : l1 = l ∧ (fin = true → st1 = none) by
+    obtain ⟨e1, e2⟩ := hl1
+    subst e1
     cases fin with
     | false => simp at h; cases h; exact Or.inl rfl
     | true =>
       simp only [if_true] at h
       obtain ⟨l3, hl3, h⟩ := bind_ok h
       cases h
-      exact Or.inr (fixRegistered_falsy hreg hl3)
+      rw [e2 rfl] at hl3
+      exact Or.inr (fixRegistered_none hl3)
   unfold branch at hb
   obtain ⟨c0, hc0, hb⟩ := bind_ok hb
   obtain ⟨cls, hcls', hb⟩ := bind_ok hb
@@ -614,48 +688,81 @@ theorem C12_untouched_partial (F : Flags) (hF : F.folding = false) (qc : Dict) (
   dsimp only at hb
   by_cases c1 : cn ∈ denseLike
   · simp only [c1, if_true] at hb
-    exact (convBranch_unselected hF (fun p => hlook _ (by simp [classKeys, c1]) p) hb).1
+    exact unsel_pack (convBranch_unselected hF (fun p => hlook _ (by simp [classKeys, c1]) p) hb)
   simp only [c1, if_false] at hb
   by_cases c2 : cn = "DepthwiseConv2D"
   · subst c2
     simp only [if_true] at hb
-    exact (convBranch_unselected hF (fun p => hlook _ (by decide) p) hb).1
+    exact unsel_pack (convBranch_unselected hF (fun p => hlook _ (by decide) p) hb)
   simp only [c2, if_false] at hb
+  by_cases c2s : cn = "SeparableConv1D" ∨ cn = "SeparableConv2D"
+  · simp only [c2s, if_true] at hb
+    exact unsel_pack (sepBranch_unselected (fun p => hlook _ (by simp [classKeys, c1, c2, c2s]) p) hb)
+  simp only [c2s, if_false] at hb
   by_cases c3 : cn = "SimpleRNN" ∨ cn = "LSTM" ∨ cn = "GRU"
   · simp only [c3, if_true] at hb
     obtain ⟨l2, hl2, hb⟩ := bind_ok hb
     cases hb
-    exact quantizeRnn_unselected' hns.cls (fun p => hlook _ (by simp [classKeys, c1, c2, c3]) p) hl2
+    exact ⟨quantizeRnn_unselected' hns.cls (fun p => hlook _ (by simp [classKeys, c1, c2, c2s, c3]) p) hl2,
+      fun _ => rfl⟩
   simp only [c3, if_false] at hb
-  simp only [hnb, if_false] at hb
+  by_cases c4 : cn = "Bidirectional"
+  · subst c4
+    simp only [if_true] at hb
+    exact unsel_pack (bidirBranch_unselected (hlook _ (by decide) _) hb)
+  simp only [c4, if_false] at hb
   by_cases c5 : cn = "Activation"
   · subst c5
     simp only [if_true] at hb
-    exact (activationBranch_unselected (hlook _ (by decide) none) (hlook _ (by decide) none) hb).1
+    exact unsel_pack (activationBranch_unselected (hlook _ (by decide) none) (hlook _ (by decide) none) hb)
   simp only [c5, if_false] at hb
   by_cases c6 : cn = "ReLU" ∨ cn = "relu" ∨ cn = "LeakyReLU"
   · simp only [c6, if_true] at hb
-    exact (reluBranch_unselected (hlook _ (by simp [classKeys, c1, c2, c3, hnb, c5, c6]) none) hb).1
+    exact unsel_pack (reluBranch_unselected (hlook _ (by simp [classKeys, c1, c2, c2s, c3, c4, c5, c6]) none) hb)
   simp only [c6, if_false] at hb
   by_cases c7 : cn = "BatchNormalization"
   · subst c7
     simp only [if_true] at hb
-    exact (bnBranch_unselected (bnPresent_notSelected hns) hb).1
+    exact unsel_pack (bnBranch_unselected (bnPresent_notSelected hns) hb)
   simp only [c7, if_false] at hb
   by_cases c8 : cn = "AveragePooling2D" ∨ cn = "GlobalAveragePooling2D"
   · simp only [c8, if_true] at hb
-    exact (poolBranch_unselected (fun p => hlook _ (by simp [classKeys, c1, c2, c3, hnb, c5, c6, c7, c8]) p) hb).1
+    exact unsel_pack (poolBranch_unselected
+      (fun p => hlook _ (by simp [classKeys, c1, c2, c2s, c3, c4, c5, c6, c7, c8]) p) hb)
   simp only [c8, if_false] at hb
   cases hb
-  rfl
+  exact ⟨rfl, fun _ => rfl⟩
+
+/-- read extensionally: every top-level entry other than `registered_name` of an unselected layer
+    (class, config, inbound_nodes, ...) is exactly what it was, and a truthy `registered_name`
+    (registered custom class) is what it was, too -/
+theorem C12_untouched_extensional_partial (F : Flags) (hF : F.folding = false) (qc : Dict)
+    (st st' : Option String) (l l' : PyVal) (cn n : String) (hns : NotSelected qc l cn n)
+    (h : step F qc st l = .ok (l', st')) :
+    (∀ k, k ≠ "registered_name" → pget l' k = pget l k) ∧
+    (∀ v, pget l "registered_name" = some v → truthy v = true → pget l' "registered_name" = some v) := by
+  rcases C12_untouched_partial F hF qc st st' l l' cn n hns h with e | ⟨ht, e⟩ | ⟨ht, e⟩
+  · subst e
+    exact ⟨fun _ _ => rfl, fun v hv _ => hv⟩
+  · subst e
+    refine ⟨fun k hk => pget_popped l k hk, fun v hv hvt => ?_⟩
+    rw [hv] at ht
+    simp only [Option.getD_some] at ht
+    rw [hvt] at ht
+    cases ht
+  · subst e
+    refine ⟨fun k hk => pget_reRegistered l k (fun e => absurd e hk), fun v hv _ => ?_⟩
+    rw [pget_reRegistered l _ (fun _ => ⟨v, hv⟩)]
+    exact hv
 
 /-- list form: at every position of every model -/
 theorem C12_untouched_partial_list (F : Flags) (hF : F.folding = false) (qc : Dict) (ls ls' : List PyVal)
     (h : rewrite F qc ls = .ok ls') (l l' : PyVal) (hm : (l, l') ∈ ls.zip ls') (cn n : String)
-    (hns : NotSelected qc l cn n) (hnb : cn ≠ "Bidirectional")
-    (hreg : truthy ((pget l "registered_name").getD .none) = false) : l' = l ∨ l' = popped l := by
+    (hns : NotSelected qc l cn n) :
+    l' = l ∨ (truthy ((pget l "registered_name").getD .none) = false ∧ l' = popped l) ∨
+      (truthy ((pget l "registered_name").getD .none) = true ∧ l' = reRegistered l) := by
   obtain ⟨st₁, st₂, hs⟩ := (rewriteFrom_zip F qc ls none ls' h).2 l l' hm
-  exact C12_untouched_partial F hF qc st₁ st₂ l l' cn n hns hnb hreg hs
+  exact C12_untouched_partial F hF qc st₁ st₂ l l' cn n hns hs
 
 /-- non-vacuity: `dense0` is not selected by a dictionary that only talks about other things -/
 example : NotSelected [("QConv2D", .dict []), ("other", .none)] dense0 "Dense" "d1" :=
@@ -743,13 +850,15 @@ theorem C12_selected_relu (F : Flags) (qc : Dict) (st st' : Option String) (l l'
     rcases hcn with h | h | h <;> subst h <;> decide
   have e2 : (cn = "DepthwiseConv2D") = False := by
     rcases hcn with h | h | h <;> subst h <;> decide
+  have e2s : (cn = "SeparableConv1D" ∨ cn = "SeparableConv2D") = False := by
+    rcases hcn with h | h | h <;> subst h <;> decide
   have e3 : (cn = "SimpleRNN" ∨ cn = "LSTM" ∨ cn = "GRU") = False := by
     rcases hcn with h | h | h <;> subst h <;> decide
   have e4 : (cn = "Bidirectional") = False := by
     rcases hcn with h | h | h <;> subst h <;> decide
   have e5 : (cn = "Activation") = False := by
     rcases hcn with h | h | h <;> subst h <;> decide
-  simp only [e1, e2, e3, e4, e5, if_false, hcn, if_true] at hb
+  simp only [e1, e2, e2s, e3, e4, e5, if_false, hcn, if_true] at hb
   unfold reluBranch at hb
   obtain ⟨q', hq', hb⟩ := bind_ok hb
   rw [hq] at hq'
@@ -861,7 +970,824 @@ example : clsOf leaky = some (.str "LeakyReLU") ∧
 example : (rewrite F0 [("QActivation", .dict [("tanh", .str "quantized_tanh(4)")])] [leaky]).toOption.map
     (fun ls => ls.map clsOf) = some [some (.str "LeakyReLU")] := by rfl
 
-/-! ## recorded defects of the code as it is (mirrored by the model) -/
+/-! ## selected SeparableConv1D / SeparableConv2D (dedicated branch of the fix round) -/
+
+/-- the config keys the SeparableConv branch writes -/
+def sepKeys : List String := ["depthwise_quantizer", "pointwise_quantizer", "bias_quantizer", "activation"]
+
+theorem sepApply_spec {look : Look} {bits qn : String} {dq pq bq l l' : PyVal}
+    (h : sepApply look bits qn dq pq bq l = .ok l') :
+    clsOf l' = some (.str qn) ∧ cfgGet l' "depthwise_quantizer" = some dq ∧
+    cfgGet l' "pointwise_quantizer" = some pq ∧ cfgGet l' "bias_quantizer" = some bq ∧
+    (∃ aq, look qn (some "activation_quantizer") = .ok aq ∧
+      (truthy aq = true → cfgGet l' "activation" = some aq)) ∧
+    (∀ k, k ∉ sepKeys → cfgGet l' k = cfgGet l k) := by
+  have hfr := Ok_sepApply (ks := sepKeys) (ts := ["class_name"]) (Eff.refl _ _ l) (by decide) (by decide)
+    (by decide) (by decide) (by decide) l' h
+  unfold sepApply at h
+  obtain ⟨l1, h1, h⟩ := bind_ok h
+  obtain ⟨l2, h2, h⟩ := bind_ok h
+  obtain ⟨l3, h3, h⟩ := bind_ok h
+  obtain ⟨l4, h4, h⟩ := bind_ok h
+  obtain ⟨e5, aq, haq, hact, _⟩ := actStep_spec h
+  have s1 := setCls_spec h1
+  have s2 := setCfg_spec h2
+  have s3 := setCfg_spec h3
+  have s4 := setCfg_spec h4
+  refine ⟨?_, ?_, ?_, ?_, ⟨aq, haq, hact⟩, fun k hk => hfr.cfg k hk⟩
+  · rw [clsOf, e5.top "class_name" (by simp) (by decide), s4.2.2 _ (by decide), s3.2.2 _ (by decide),
+      s2.2.2 _ (by decide)]
+    exact s1.1
+  · rw [e5.cfg _ (by decide), s4.2.1 _ (by decide), s3.2.1 _ (by decide)]
+    exact s2.1
+  · rw [e5.cfg _ (by decide), s4.2.1 _ (by decide)]
+    exact s3.1
+  · rw [e5.cfg _ (by decide)]
+    exact s4.1
+
+/-- A SeparableConv1D / SeparableConv2D layer whose depthwise-quantizer lookup (name entry first,
+    then the class entry `"Q" + class`) is not None becomes `"Q" + class`; its
+    `depthwise_quantizer` and `pointwise_quantizer` are the two lookups, its `bias_quantizer` is
+    the bias lookup when `use_bias` is truthy and None otherwise, its `activation` is the
+    `activation_quantizer` lookup when that is truthy, and no other config key changes — in
+    particular no `kernel_quantizer` key appears (the repaired defect). -/
+theorem C12_selected_separable (F : Flags) (qc : Dict) (st st' : Option String) (l l' : PyVal) (cn : String)
+    (hcn : cn = "SeparableConv1D" ∨ cn = "SeparableConv2D") (hcls : clsOf l = some (.str cn))
+    (dq : PyVal) (hdq : getConfig qc l ("Q" ++ cn) (some "depthwise_quantizer") = .ok dq) (hne : dq ≠ .none)
+    (h : step F qc st l = .ok (l', st')) :
+    clsOf l' = some (.str ("Q" ++ cn)) ∧ cfgGet l' "depthwise_quantizer" = some dq ∧
+    (∃ pq, getConfig qc l ("Q" ++ cn) (some "pointwise_quantizer") = .ok pq ∧
+      cfgGet l' "pointwise_quantizer" = some pq) ∧
+    (∃ ub, cfgGet l "use_bias" = some ub ∧
+      (truthy ub = false → cfgGet l' "bias_quantizer" = some .none) ∧
+      (truthy ub = true → ∃ bq, getConfig qc l ("Q" ++ cn) (some "bias_quantizer") = .ok bq ∧
+          cfgGet l' "bias_quantizer" = some bq)) ∧
+    (∃ aq, getConfig qc l ("Q" ++ cn) (some "activation_quantizer") = .ok aq ∧
+      (truthy aq = true → cfgGet l' "activation" = some aq)) ∧
+    (∀ k, k ∉ sepKeys → cfgGet l' k = cfgGet l k) := by
+  unfold step stepCore at h
+  obtain ⟨r, hb, h⟩ := bind_ok h
+  obtain ⟨l1, st1, fin⟩ := r
+  unfold branch at hb
+  obtain ⟨c0, hc0, hb⟩ := bind_ok hb
+  obtain ⟨cls, hcls', hb⟩ := bind_ok hb
+  have : cls = .str cn := by
+    have := sub_ok hcls'
+    rw [clsOf] at hcls
+    rw [hcls] at this
+    exact (Option.some.inj this).symm
+  subst this
+  have e1 : (cn ∈ denseLike) = False := by
+    rcases hcn with h | h <;> subst h <;> decide
+  have e2 : (cn = "DepthwiseConv2D") = False := by
+    rcases hcn with h | h <;> subst h <;> decide
+  simp only [e1, e2, if_false, hcn, if_true] at hb
+  unfold sepBranch at hb
+  obtain ⟨dq', hdq', hb⟩ := bind_ok hb
+
+  rw [hdq] at hdq'
+  cases hdq'
+  obtain ⟨pq, hpq, hb⟩ := bind_ok hb
+  obtain ⟨c1, hc1, hb⟩ := bind_ok hb
+  obtain ⟨ub, hub, hb⟩ := bind_ok hb
+  obtain ⟨bq, hbq, hb⟩ := bind_ok hb
+
+  have hubv : cfgGet l "use_bias" = some ub := by
+    simp [cfgGet, sub_ok hc1, sub_ok hub]
+  cases dq with
+  | none => exact absurd rfl hne
+  | bool _ | num _ _ | str _ | list _ | dict _ =>
+    all_goals
+      simp only at hb
+      obtain ⟨l2, hl2, hb⟩ := bind_ok hb
+      cases hb
+      obtain ⟨s1, s2, s3, s4, ⟨aq, haq, hact⟩, sfr⟩ := sepApply_spec hl2
+      simp only [if_true] at h
+      obtain ⟨l3, hl3, h⟩ := bind_ok h
+      cases h
+      have e := fixRegistered_spec hl3
+      have ecls := e.top "class_name" (by decide) (by decide)
+      refine ⟨by rw [clsOf, ecls]; exact s1, by rw [e.cfg _ (by simp)]; exact s2,
+        ⟨pq, hpq, by rw [e.cfg _ (by simp)]; exact s3⟩, ⟨ub, hubv, ?_, ?_⟩,
+        ⟨aq, haq, fun ht => by rw [e.cfg _ (by simp)]; exact hact ht⟩,
+        fun k hk => by rw [e.cfg _ (by simp)]; exact sfr k hk⟩
+      · intro ht
+        unfold biasLook at hbq
+        simp [ht] at hbq
+        cases hbq
+        rw [e.cfg _ (by simp)]
+        exact s4
+      · intro ht
+        unfold biasLook at hbq
+        simp [ht] at hbq
+        exact ⟨bq, hbq, by rw [e.cfg _ (by simp)]; exact s4⟩
+
+/-- list form: at every position of every converted model -/
+theorem C12_selected_separable_list (F : Flags) (qc : Dict) (ls ls' : List PyVal)
+    (h : rewrite F qc ls = .ok ls') (l l' : PyVal) (hm : (l, l') ∈ ls.zip ls') (cn : String)
+    (hcn : cn = "SeparableConv1D" ∨ cn = "SeparableConv2D") (hcls : clsOf l = some (.str cn))
+    (dq : PyVal) (hdq : getConfig qc l ("Q" ++ cn) (some "depthwise_quantizer") = .ok dq) (hne : dq ≠ .none) :
+    clsOf l' = some (.str ("Q" ++ cn)) ∧ cfgGet l' "depthwise_quantizer" = some dq ∧
+    (∃ pq, getConfig qc l ("Q" ++ cn) (some "pointwise_quantizer") = .ok pq ∧
+      cfgGet l' "pointwise_quantizer" = some pq) ∧
+    cfgGet l' "kernel_quantizer" = cfgGet l "kernel_quantizer" := by
+  obtain ⟨st₁, st₂, hs⟩ := (rewriteFrom_zip F qc ls none ls' h).2 l l' hm
+  obtain ⟨h1, h2, h3, _, _, h6⟩ := C12_selected_separable F qc st₁ st₂ l l' cn hcn hcls dq hdq hne hs
+  exact ⟨h1, h2, h3, h6 _ (by decide)⟩
+
+def sep0 : PyVal := .dict [("class_name", .str "SeparableConv2D"),
+  ("config", .dict [("name", .str "s1"), ("filters", .num 2 0), ("use_bias", .bool false),
+                    ("activation", .str "relu")]), ("registered_name", .none)]
+def qcSep : Dict := [("QSeparableConv2D", .dict [("depthwise_quantizer", .str "quantized_bits(4,0,1)"),
+  ("pointwise_quantizer", .str "quantized_bits(3,0,1)"), ("bias_quantizer", .str "quantized_bits(4)")])]
+
+/-- regression witness of the repaired defect (former finding C12-separable-kernel-quantizer): the
+    entry AutoQKeras writes converts the layer — before the fix it was ignored, and a
+    `kernel_quantizer` entry produced a `kernel_quantizer` key that QSeparableConv2D rejects; now
+    such an entry selects nothing and no `kernel_quantizer` key is ever written. -/
+theorem C12_separable_fixed_witness :
+    (rewrite F0 qcSep [sep0]).toOption.map (fun ls => ls.map fun l =>
+      (clsOf l, cfgGet l "depthwise_quantizer", cfgGet l "pointwise_quantizer", cfgGet l "bias_quantizer",
+       cfgGet l "activation", cfgGet l "kernel_quantizer")) =
+    some [(some (.str "QSeparableConv2D"), some (.str "quantized_bits(4,0,1)"), some (.str "quantized_bits(3,0,1)"),
+           some .none, some (.str "quantized_relu(4)"), none)] ∧
+    rewrite F0 [("QSeparableConv2D", .dict [("kernel_quantizer", .str "quantized_bits(4,0,1)")])] [sep0] = .ok [sep0] := by
+  exact ⟨rfl, rfl⟩
+
+/-! ## selected pooling layers -/
+
+theorem poolApply_spec {F : Flags} {look : Look} {qn : String} {aq l l' : PyVal}
+    (h : poolApply F look qn aq l = .ok l') :
+    clsOf l' = some (.str qn) ∧ cfgGet l' "average_quantizer" = some aq ∧
+    (∃ a, look qn (some "activation_quantizer") = .ok a ∧
+      (truthy a = true → cfgGet l' "activation" = some a)) ∧
+    (∀ k, k ∉ ["average_quantizer", "activation"] → cfgGet l' k = cfgGet l k) := by
+  have hfr := Ok_poolApply (ks := ["average_quantizer", "activation"]) (ts := ["class_name"]) (Eff.refl _ _ l)
+    (by decide) (by decide) (by decide) l' h
+  unfold poolApply at h
+  obtain ⟨l1, h1, h⟩ := bind_ok h
+  obtain ⟨l2, h2, h⟩ := bind_ok h
+  obtain ⟨e3, a, ha, hact, _⟩ := actStep_spec h
+  have s1 := setCls_spec h1
+  have s2 := setCfg_spec h2
+  refine ⟨?_, ?_, ⟨a, ha, hact⟩, fun k hk => hfr.cfg k hk⟩
+  · rw [clsOf, e3.top "class_name" (by simp) (by decide), s2.2.2 _ (by decide)]
+    exact s1.1
+  · rw [e3.cfg _ (by decide)]
+    exact s2.1
+
+/-- An AveragePooling2D / GlobalAveragePooling2D layer whose `average_quantizer` lookup is not
+    None becomes `"Q" + class` with that `average_quantizer`; `activation` is the
+    `activation_quantizer` lookup when truthy; every other config key is unchanged. -/
+theorem C12_selected_pool (F : Flags) (qc : Dict) (st st' : Option String) (l l' : PyVal) (cn : String)
+    (hcn : cn = "AveragePooling2D" ∨ cn = "GlobalAveragePooling2D") (hcls : clsOf l = some (.str cn))
+    (aq : PyVal) (haq : getConfig qc l ("Q" ++ cn) (some "average_quantizer") = .ok aq) (hne : aq ≠ .none)
+    (h : step F qc st l = .ok (l', st')) :
+    clsOf l' = some (.str ("Q" ++ cn)) ∧ cfgGet l' "average_quantizer" = some aq ∧
+    (∃ a, getConfig qc l ("Q" ++ cn) (some "activation_quantizer") = .ok a ∧
+      (truthy a = true → cfgGet l' "activation" = some a)) ∧
+    (∀ k, k ∉ ["average_quantizer", "activation"] → cfgGet l' k = cfgGet l k) := by
+  unfold step stepCore at h
+  obtain ⟨r, hb, h⟩ := bind_ok h
+  obtain ⟨l1, st1, fin⟩ := r
+  unfold branch at hb
+  obtain ⟨c0, hc0, hb⟩ := bind_ok hb
+  obtain ⟨cls, hcls', hb⟩ := bind_ok hb
+  have : cls = .str cn := by
+    have := sub_ok hcls'
+    rw [clsOf] at hcls
+    rw [hcls] at this
+    exact (Option.some.inj this).symm
+  subst this
+  have e1 : (cn ∈ denseLike) = False := by
+    rcases hcn with h | h <;> subst h <;> decide
+  have e2 : (cn = "DepthwiseConv2D") = False := by
+    rcases hcn with h | h <;> subst h <;> decide
+  have e2s : (cn = "SeparableConv1D" ∨ cn = "SeparableConv2D") = False := by
+    rcases hcn with h | h <;> subst h <;> decide
+  have e3 : (cn = "SimpleRNN" ∨ cn = "LSTM" ∨ cn = "GRU") = False := by
+    rcases hcn with h | h <;> subst h <;> decide
+  have e4 : (cn = "Bidirectional") = False := by
+    rcases hcn with h | h <;> subst h <;> decide
+  have e5 : (cn = "Activation") = False := by
+    rcases hcn with h | h <;> subst h <;> decide
+  have e6 : (cn = "ReLU" ∨ cn = "relu" ∨ cn = "LeakyReLU") = False := by
+    rcases hcn with h | h <;> subst h <;> decide
+  have e7 : (cn = "BatchNormalization") = False := by
+    rcases hcn with h | h <;> subst h <;> decide
+  simp only [e1, e2, e2s, e3, e4, e5, e6, e7, if_false, hcn, if_true] at hb
+  unfold poolBranch at hb
+  obtain ⟨aq', haq', hb⟩ := bind_ok hb
+
+  rw [haq] at haq'
+  cases haq'
+  cases aq with
+  | none => exact absurd rfl hne
+  | bool _ | num _ _ | str _ | list _ | dict _ =>
+    all_goals
+      simp only at hb
+      obtain ⟨l2, hl2, hb⟩ := bind_ok hb
+      cases hb
+      obtain ⟨s1, s2, ⟨a, ha, hact⟩, sfr⟩ := poolApply_spec hl2
+      simp only [if_true] at h
+      obtain ⟨l3, hl3, h⟩ := bind_ok h
+      cases h
+      have e := fixRegistered_spec hl3
+      have ecls := e.top "class_name" (by decide) (by decide)
+      exact ⟨by rw [clsOf, ecls]; exact s1, by rw [e.cfg _ (by simp)]; exact s2,
+        ⟨a, ha, fun ht => by rw [e.cfg _ (by simp)]; exact hact ht⟩,
+        fun k hk => by rw [e.cfg _ (by simp)]; exact sfr k hk⟩
+
+/-! ## selected BatchNormalization layers -/
+
+def bnKeys : List String := ["gamma_quantizer", "beta_quantizer", "mean_quantizer", "variance_quantizer"]
+
+theorem bnApply_spec {look : Look} {l l' : PyVal} (h : bnApply look l = .ok l') :
+    clsOf l' = some (.str "QBatchNormalization") ∧
+    (∀ k ∈ bnKeys, ∃ v, look "QBatchNormalization" (some k) = .ok v ∧ cfgGet l' k = some v) ∧
+    (∀ k, k ∉ bnKeys → cfgGet l' k = cfgGet l k) := by
+  have hfr := Ok_bnApply (ks := bnKeys) (ts := ["class_name"]) (Eff.refl _ _ l)
+    (by decide) (by decide) (by decide) (by decide) (by decide) l' h
+  unfold bnApply at h
+  obtain ⟨l1, h1, h⟩ := bind_ok h
+  obtain ⟨g, hg, h⟩ := bind_ok h
+  obtain ⟨b, hb, h⟩ := bind_ok h
+  obtain ⟨m, hm, h⟩ := bind_ok h
+  obtain ⟨v, hv, h⟩ := bind_ok h
+  obtain ⟨l2, h2, h⟩ := bind_ok h
+  obtain ⟨l3, h3, h⟩ := bind_ok h
+  obtain ⟨l4, h4, h⟩ := bind_ok h
+  have s1 := setCls_spec h1
+  have s2 := setCfg_spec h2
+  have s3 := setCfg_spec h3
+  have s4 := setCfg_spec h4
+  have s5 := setCfg_spec h
+  refine ⟨?_, ?_, fun k hk => hfr.cfg k hk⟩
+  · rw [clsOf, s5.2.2 _ (by decide), s4.2.2 _ (by decide), s3.2.2 _ (by decide), s2.2.2 _ (by decide)]
+    exact s1.1
+  · intro k hk
+    simp only [bnKeys, List.mem_cons, List.not_mem_nil, or_false] at hk
+    rcases hk with hk | hk | hk | hk
+    · subst hk
+      exact ⟨g, hg, by rw [s5.2.1 _ (by decide), s4.2.1 _ (by decide), s3.2.1 _ (by decide)]; exact s2.1⟩
+    · subst hk
+      exact ⟨b, hb, by rw [s5.2.1 _ (by decide), s4.2.1 _ (by decide)]; exact s3.1⟩
+    · subst hk
+      exact ⟨m, hm, by rw [s5.2.1 _ (by decide)]; exact s4.1⟩
+    · subst hk
+      exact ⟨v, hv, s5.1⟩
+
+theorem bnPresent_selected {qc : Dict} {l : PyVal} {n : String} (hn : nameOf l = some (.str n))
+    (hsel : (dget qc n).isSome = true ∨ (dget qc "QBatchNormalization").isSome = true) :
+    bnPresent qc l = .ok true := by
+  simp only [nameOf, cfgGet] at hn
+  cases hc : pget l "config" with
+  | none => simp [hc] at hn
+  | some cfg =>
+    simp only [hc, Option.bind_some] at hn
+    unfold bnPresent
+    rcases hsel with hs | hs <;>
+      simp [sub_of_pget hc, sub_of_pget hn, bind, Except.bind, hs, pure, Except.pure]
+
+/-- A BatchNormalization layer is selected when its name or the key `QBatchNormalization` occurs
+    in the dictionary; it then becomes a QBatchNormalization whose gamma / beta / mean / variance
+    quantizers are exactly the four lookups (name entry first, then the class entry; None when
+    the entry does not name one), and no other config key changes. -/
+theorem C12_selected_bn (F : Flags) (qc : Dict) (st st' : Option String) (l l' : PyVal) (n : String)
+    (hcls : clsOf l = some (.str "BatchNormalization")) (hn : nameOf l = some (.str n))
+    (hsel : (dget qc n).isSome = true ∨ (dget qc "QBatchNormalization").isSome = true)
+    (h : step F qc st l = .ok (l', st')) :
+    clsOf l' = some (.str "QBatchNormalization") ∧
+    (∀ k ∈ bnKeys, ∃ v, getConfig qc l "QBatchNormalization" (some k) = .ok v ∧ cfgGet l' k = some v) ∧
+    (∀ k, k ∉ bnKeys → cfgGet l' k = cfgGet l k) := by
+  unfold step stepCore at h
+  obtain ⟨r, hb, h⟩ := bind_ok h
+  obtain ⟨l1, st1, fin⟩ := r
+  unfold branch at hb
+  obtain ⟨c0, hc0, hb⟩ := bind_ok hb
+  obtain ⟨cls, hcls', hb⟩ := bind_ok hb
+  have : cls = .str "BatchNormalization" := by
+    have := sub_ok hcls'
+    rw [clsOf] at hcls
+    rw [hcls] at this
+    exact (Option.some.inj this).symm
+  subst this
+  have e1 : ("BatchNormalization" ∈ denseLike) = False := by decide
+  simp only [e1, if_false] at hb
+  simp only [show ("BatchNormalization" = "DepthwiseConv2D") = False by decide,
+    show ("BatchNormalization" = "SeparableConv1D" ∨ "BatchNormalization" = "SeparableConv2D") = False by decide,
+    show ("BatchNormalization" = "SimpleRNN" ∨ "BatchNormalization" = "LSTM" ∨ "BatchNormalization" = "GRU") = False by decide,
+    show ("BatchNormalization" = "Bidirectional") = False by decide,
+    show ("BatchNormalization" = "Activation") = False by decide,
+    show ("BatchNormalization" = "ReLU" ∨ "BatchNormalization" = "relu" ∨ "BatchNormalization" = "LeakyReLU") = False by decide,
+    if_false, if_true] at hb
+  unfold bnBranch at hb
+  obtain ⟨pr, hpr, hb⟩ := bind_ok hb
+  rw [bnPresent_selected hn hsel] at hpr
+  cases hpr
+  simp only [if_true] at hb
+  obtain ⟨l2, hl2, hb⟩ := bind_ok hb
+  cases hb
+  obtain ⟨s1, s2, sfr⟩ := bnApply_spec hl2
+  simp only [if_true] at h
+  obtain ⟨l3, hl3, h⟩ := bind_ok h
+  cases h
+  have e := fixRegistered_spec hl3
+  have ecls := e.top "class_name" (by decide) (by decide)
+  refine ⟨by rw [clsOf, ecls]; exact s1, fun k hk => ?_, fun k hk => by rw [e.cfg _ (by simp)]; exact sfr k hk⟩
+  obtain ⟨v, hv, hv'⟩ := s2 k hk
+  exact ⟨v, hv, by rw [e.cfg _ (by simp)]; exact hv'⟩
+
+/-! ## selected Activation layers (QActivation path) -/
+
+theorem actLookup_plain {F : Flags} (hpa : F.preferAdaptive = false) {look : Look} {q : PyVal}
+    (hq : look "QActivation" none = .ok q) (hne : q ≠ .none) : actLookup F look = .ok (q, false) := by
+  unfold actLookup
+  simp only [hpa, hq, bind, Except.bind]
+  cases q <;> first | exact absurd rfl hne | rfl
+
+/-- shared walk: an Activation layer for which the QActivation lookup `q` is consulted, the
+    condition holds and the picked quantizer `v` is truthy becomes a QActivation with
+    `activation = v`; nothing else in its config changes -/
+theorem activation_selected_core (F : Flags) (hpa : F.preferAdaptive = false) (qc : Dict)
+    (st st' : Option String) (l l' : PyVal) (hcls : clsOf l = some (.str "Activation")) (q v : PyVal)
+    (hq : getConfig qc l "QActivation" none = .ok q) (hne : q ≠ .none)
+    (hcond : ∀ l₁, pget l₁ "config" = pget l "config" → actCond q l₁ = .ok true)
+    (hpick : ∀ l₁, pget l₁ "config" = pget l "config" → actPick q l₁ = .ok v) (ht : truthy v = true)
+    (h : step F qc st l = .ok (l', st')) :
+    clsOf l' = some (.str "QActivation") ∧ cfgGet l' "activation" = some v ∧
+    (∀ k, k ≠ "activation" → cfgGet l' k = cfgGet l k) := by
+  unfold step stepCore at h
+  obtain ⟨r, hb, h⟩ := bind_ok h
+  obtain ⟨l1, st1, fin⟩ := r
+  unfold branch at hb
+  obtain ⟨c0, hc0, hb⟩ := bind_ok hb
+  obtain ⟨cls, hcls', hb⟩ := bind_ok hb
+  have : cls = .str "Activation" := by
+    have := sub_ok hcls'
+    rw [clsOf] at hcls
+    rw [hcls] at this
+    exact (Option.some.inj this).symm
+  subst this
+  simp only [show ("Activation" ∈ denseLike) = False by decide,
+    show ("Activation" = "DepthwiseConv2D") = False by decide,
+    show ("Activation" = "SeparableConv1D" ∨ "Activation" = "SeparableConv2D") = False by decide,
+    show ("Activation" = "SimpleRNN" ∨ "Activation" = "LSTM" ∨ "Activation" = "GRU") = False by decide,
+    show ("Activation" = "Bidirectional") = False by decide, if_false, if_true] at hb
+  unfold activationBranch at hb
+  obtain ⟨qa, hqa, hb⟩ := bind_ok hb
+  rw [actLookup_plain hpa hq hne] at hqa
+  cases hqa
+  have hmain : fin = true ∧ clsOf l1 = some (.str "QActivation") ∧ cfgGet l1 "activation" = some v ∧
+      (∀ k, k ≠ "activation" → cfgGet l1 k = cfgGet l k) := by
+    cases q with
+    | none => exact absurd rfl hne
+    | bool _ | num _ _ | str _ | list _ | dict _ =>
+      all_goals
+        simp only at hb
+        obtain ⟨c, hc, hb⟩ := bind_ok hb
+        rw [hcond l rfl] at hc
+        cases hc
+        simp only [if_true] at hb
+        obtain ⟨l2, hl2, hb⟩ := bind_ok hb
+        cases hb
+        unfold activationApply at hl2
+        obtain ⟨l3, hl3, hl2⟩ := bind_ok hl2
+        have s3 := setCls_spec hl3
+        obtain ⟨v', hv', hl2⟩ := bind_ok hl2
+        rw [hpick l3 (s3.2 "config" (by decide))] at hv'
+        cases hv'
+        simp only [ht, if_true, Bool.false_eq_true, if_false] at hl2
+        have s4 := setCfg_spec hl2
+        refine ⟨rfl, ?_, s4.1, fun k hk => ?_⟩
+        · rw [clsOf, s4.2.2 _ (by decide)]
+          exact s3.1
+        · rw [s4.2.1 k hk]
+          exact cfgGet_of_top (s3.2 "config" (by decide)) k
+  obtain ⟨hfin, m1, m2, m3⟩ := hmain
+  subst hfin
+  simp only [if_true] at h
+  obtain ⟨l5, hl5, h⟩ := bind_ok h
+  cases h
+  have e := fixRegistered_spec hl5
+  exact ⟨by rw [clsOf, e.top "class_name" (by decide) (by decide)]; exact m1,
+    by rw [e.cfg _ (by simp)]; exact m2, fun k hk => by rw [e.cfg _ (by simp)]; exact m3 k hk⟩
+
+/-- An Activation layer selected by a plain (non-dict) truthy entry — name entry first, then
+    `"QActivation"` — becomes a QActivation whose `activation` is that entry; every other config
+    key is unchanged.  (QActivation consulted first: `prefer_qadaptiveactivation = False`.) -/
+theorem C12_selected_activation (F : Flags) (hpa : F.preferAdaptive = false) (qc : Dict)
+    (st st' : Option String) (l l' : PyVal) (hcls : clsOf l = some (.str "Activation")) (q : PyVal)
+    (hq : getConfig qc l "QActivation" none = .ok q) (hnd : ∀ d, q ≠ .dict d) (ht : truthy q = true)
+    (h : step F qc st l = .ok (l', st')) :
+    clsOf l' = some (.str "QActivation") ∧ cfgGet l' "activation" = some q ∧
+    (∀ k, k ≠ "activation" → cfgGet l' k = cfgGet l k) := by
+  have hne : q ≠ .none := by
+    intro e
+    rw [e] at ht
+    cases ht
+  refine activation_selected_core F hpa qc st st' l l' hcls q q hq hne ?_ ?_ ht h
+  · intro l₁ _
+    unfold actCond
+    cases q <;> first | rfl | exact absurd rfl (hnd _)
+  · intro l₁ _
+    unfold actPick
+    cases q <;> first | rfl | exact absurd rfl (hnd _)
+
+/-- … and one selected through an activation map (`{"relu": "quantized_relu(4)", ...}`) gets the
+    map's entry for its own activation function, when that entry is truthy. -/
+theorem C12_selected_activation_map (F : Flags) (hpa : F.preferAdaptive = false) (qc : Dict)
+    (st st' : Option String) (l l' : PyVal) (hcls : clsOf l = some (.str "Activation")) (qd : Dict)
+    (hq : getConfig qc l "QActivation" none = .ok (.dict qd)) (a : String)
+    (ha : cfgGet l "activation" = some (.str a)) (v : PyVal) (hv : dget qd a = some v) (ht : truthy v = true)
+    (h : step F qc st l = .ok (l', st')) :
+    clsOf l' = some (.str "QActivation") ∧ cfgGet l' "activation" = some v ∧
+    (∀ k, k ≠ "activation" → cfgGet l' k = cfgGet l k) := by
+  have hsub : ∀ l₁, pget l₁ "config" = pget l "config" →
+      ∃ c, sub l₁ "config" = .ok c ∧ sub c "activation" = .ok (.str a) := by
+    intro l₁ hl
+    simp only [cfgGet] at ha
+    cases hc : pget l "config" with
+    | none => simp [hc] at ha
+    | some c =>
+      simp only [hc, Option.bind_some] at ha
+      exact ⟨c, sub_of_pget (hl.trans hc), sub_of_pget ha⟩
+  refine activation_selected_core F hpa qc st st' l l' hcls (.dict qd) v hq (by simp) ?_ ?_ ht h
+  · intro l₁ hl
+    obtain ⟨c, h1, h2⟩ := hsub l₁ hl
+    simp [actCond, h1, h2, bind, Except.bind, getV, hv, ht, pure, Except.pure]
+  · intro l₁ hl
+    obtain ⟨c, h1, h2⟩ := hsub l₁ hl
+    simp [actPick, h1, h2, bind, Except.bind, getV, hv, pure, Except.pure]
+
+
+/-! ## selected recurrent layers (SimpleRNN / LSTM / GRU, top level or inside Bidirectional) -/
+
+def rnnKeys : List String :=
+  ["kernel_quantizer", "recurrent_quantizer", "bias_quantizer", "state_quantizer", "activation",
+   "recurrent_activation"]
+
+/-- what `quantize_rnn` makes of a layer `l` of class `cn` whose kernel quantizer is `kq`, given the
+    lookup function `look`: the result `l'` is a `"Q" + cn` carrying exactly the looked-up kernel,
+    recurrent, state and (only with `use_bias`) bias quantizers, the `activation_quantizer` when
+    truthy, and otherwise the configuration it had -/
+structure RnnConverted (look : Look) (cn : String) (kq : PyVal) (l l' : PyVal) : Prop where
+  cls : clsOf l' = some (.str ("Q" ++ cn))
+  kernel : cfgGet l' "kernel_quantizer" = some kq
+  recurrent : ∃ rq, look ("Q" ++ cn) (some "recurrent_quantizer") = .ok rq ∧
+    cfgGet l' "recurrent_quantizer" = some rq
+  state : ∃ sq, look ("Q" ++ cn) (some "state_quantizer") = .ok sq ∧ cfgGet l' "state_quantizer" = some sq
+  bias : ∃ ub, cfgGet l "use_bias" = some ub ∧
+    (truthy ub = false → cfgGet l' "bias_quantizer" = some .none) ∧
+    (truthy ub = true → ∃ bq, look ("Q" ++ cn) (some "bias_quantizer") = .ok bq ∧
+      cfgGet l' "bias_quantizer" = some bq)
+  act : ∃ aq, look ("Q" ++ cn) (some "activation_quantizer") = .ok aq ∧
+    (truthy aq = true → cfgGet l' "activation" = some aq)
+  frame : ∀ k, k ∉ rnnKeys → cfgGet l' k = cfgGet l k
+
+theorem RnnConverted.of_eff {look : Look} {cn : String} {kq l l' l'' : PyVal} {ts : List String}
+    (h : RnnConverted look cn kq l l') (e : Eff [] ts l' l'') (hc : "class_name" ∉ ts) :
+    RnnConverted look cn kq l l'' := by
+  have ec : ∀ k, cfgGet l'' k = cfgGet l' k := fun k => e.cfg k (by simp)
+  refine ⟨?_, ?_, ?_, ?_, ?_, ?_, ?_⟩
+  · rw [clsOf, e.top "class_name" hc (by decide)]
+    exact h.cls
+  · rw [ec]
+    exact h.kernel
+  · obtain ⟨rq, h1, h2⟩ := h.recurrent
+    exact ⟨rq, h1, by rw [ec]; exact h2⟩
+  · obtain ⟨sq, h1, h2⟩ := h.state
+    exact ⟨sq, h1, by rw [ec]; exact h2⟩
+  · obtain ⟨ub, h1, h2, h3⟩ := h.bias
+    refine ⟨ub, h1, fun ht => by rw [ec]; exact h2 ht, fun ht => ?_⟩
+    obtain ⟨bq, h4, h5⟩ := h3 ht
+    exact ⟨bq, h4, by rw [ec]; exact h5⟩
+  · obtain ⟨aq, h1, h2⟩ := h.act
+    exact ⟨aq, h1, fun ht => by rw [ec]; exact h2 ht⟩
+  · intro k hk
+    rw [ec]
+    exact h.frame k hk
+
+theorem rnnApply_spec {look : Look} {bits cn qn : String} {kq rq bq sq l l' : PyVal}
+    (h : rnnApply look bits cn qn kq rq bq sq l = .ok l') :
+    clsOf l' = some (.str qn) ∧ cfgGet l' "kernel_quantizer" = some kq ∧
+    cfgGet l' "recurrent_quantizer" = some rq ∧ cfgGet l' "bias_quantizer" = some bq ∧
+    cfgGet l' "state_quantizer" = some sq ∧
+    (∃ aq, look qn (some "activation_quantizer") = .ok aq ∧
+      (truthy aq = true → cfgGet l' "activation" = some aq)) ∧
+    (∀ k, k ∉ rnnKeys → cfgGet l' k = cfgGet l k) := by
+  have hfr := Ok_rnnApply (ks := rnnKeys) (ts := ["class_name", "registered_name"]) (Eff.refl _ _ l)
+    (by decide) (by decide) (by decide) (by decide) (by decide) (by decide) (by decide) (by decide) l' h
+  unfold rnnApply at h
+  obtain ⟨l1, h1, h⟩ := bind_ok h
+  obtain ⟨l2, h2, h⟩ := bind_ok h
+  obtain ⟨l3, h3, h⟩ := bind_ok h
+  obtain ⟨l4, h4, h⟩ := bind_ok h
+  obtain ⟨l5, h5, h⟩ := bind_ok h
+  obtain ⟨l6, h6, h⟩ := bind_ok h
+  obtain ⟨l7, h7, h⟩ := bind_ok h
+  have s1 := setCfg_spec h1
+  have s2 := setCfg_spec h2
+  have s3 := setCfg_spec h3
+  have s4 := setCfg_spec h4
+  obtain ⟨e5, aq, haq, hact, _⟩ := actStep_spec h5
+  -- the tail (recurrent activation, rename, registered_name) only writes `recurrent_activation`
+  have e6 := Ok_recActStep (ks := ["recurrent_activation"]) (ts := ["class_name", "registered_name"])
+    (Eff.refl _ _ l5) (by decide) l6 h6
+  have e7 := Ok_setCls e6 (by decide) l7 h7
+  have e8 := Ok_rnnRegistered e7 (by decide) l' h
+  have s7 := setCls_spec h7
+  have e9 := Ok_rnnRegistered (ks := []) (ts := ["registered_name"]) (Eff.refl _ _ l7) (by decide) l' h
+  have tail : ∀ k, k ≠ "recurrent_activation" → k ≠ "activation" → cfgGet l' k = cfgGet l4 k := by
+    intro k hk hk'
+    rw [e8.cfg k (by simpa using hk), e5.cfg k (by simpa using hk')]
+  refine ⟨?_, ?_, ?_, ?_, ?_, ⟨aq, haq, fun ht => ?_⟩, fun k hk => hfr.cfg k hk⟩
+  · rw [clsOf, e9.top "class_name" (by decide) (by decide)]
+    exact s7.1
+  · rw [tail _ (by decide) (by decide), s4.2.1 _ (by decide), s3.2.1 _ (by decide), s2.2.1 _ (by decide)]
+    exact s1.1
+  · rw [tail _ (by decide) (by decide), s4.2.1 _ (by decide), s3.2.1 _ (by decide)]
+    exact s2.1
+  · rw [tail _ (by decide) (by decide), s4.2.1 _ (by decide)]
+    exact s3.1
+  · rw [tail _ (by decide) (by decide)]
+    exact s4.1
+  · rw [e8.cfg _ (by decide)]
+    exact hact ht
+
+theorem quantizeRnn_spec {look : Look} {bits cn : String} {kq l l' : PyVal}
+    (hcls : clsOf l = some (.str cn)) (hkq : look ("Q" ++ cn) (some "kernel_quantizer") = .ok kq)
+    (hne : kq ≠ .none) (h : quantizeRnn look bits l = .ok l') : RnnConverted look cn kq l l' := by
+  unfold quantizeRnn at h
+  obtain ⟨c0, hc0, h⟩ := bind_ok h
+  have := sub_ok hc0
+  rw [clsOf] at hcls
+  rw [hcls] at this
+  cases this
+  obtain ⟨cn', hcn', h⟩ := bind_ok h
+  cases hcn'
+  obtain ⟨kq', hkq', h⟩ := bind_ok h
+  rw [hkq] at hkq'
+  cases hkq'
+  obtain ⟨rq, hrq, h⟩ := bind_ok h
+  obtain ⟨c1, hc1, h⟩ := bind_ok h
+  obtain ⟨ub, hub, h⟩ := bind_ok h
+  obtain ⟨bq, hbq, h⟩ := bind_ok h
+  obtain ⟨sq, hsq, h⟩ := bind_ok h
+  have hubv : cfgGet l "use_bias" = some ub := by
+    simp [cfgGet, sub_ok hc1, sub_ok hub]
+  cases kq with
+  | none => exact absurd rfl hne
+  | bool _ | num _ _ | str _ | list _ | dict _ =>
+    all_goals
+      simp only at h
+      obtain ⟨s0, s1, s2, s3, s4, sact, sfr⟩ := rnnApply_spec h
+      refine ⟨s0, s1, ⟨rq, hrq, s2⟩, ⟨sq, hsq, s4⟩, ⟨ub, hubv, ?_, ?_⟩, sact, sfr⟩
+      · intro ht
+        unfold biasLook at hbq
+        simp [ht] at hbq
+        cases hbq
+        exact s3
+      · intro ht
+        unfold biasLook at hbq
+        simp [ht] at hbq
+        exact ⟨bq, hbq, s3⟩
+
+/-- A SimpleRNN / LSTM / GRU layer whose kernel-quantizer lookup (name entry first, then the class
+    entry `"Q" + class`) is not None becomes `"Q" + class` carrying exactly the configured kernel,
+    recurrent, state and (only with `use_bias`) bias quantizers and the configured
+    `activation_quantizer`; no config key outside `rnnKeys` changes. -/
+theorem C12_selected_rnn (F : Flags) (qc : Dict) (st st' : Option String) (l l' : PyVal) (cn : String)
+    (hcn : cn = "SimpleRNN" ∨ cn = "LSTM" ∨ cn = "GRU") (hcls : clsOf l = some (.str cn))
+    (kq : PyVal) (hkq : getConfig qc l ("Q" ++ cn) (some "kernel_quantizer") = .ok kq) (hne : kq ≠ .none)
+    (h : step F qc st l = .ok (l', st')) : RnnConverted (getConfig qc l) cn kq l l' := by
+  unfold step stepCore at h
+  obtain ⟨r, hb, h⟩ := bind_ok h
+  obtain ⟨l1, st1, fin⟩ := r
+  unfold branch at hb
+  obtain ⟨c0, hc0, hb⟩ := bind_ok hb
+  obtain ⟨cls, hcls', hb⟩ := bind_ok hb
+  have : cls = .str cn := by
+    have := sub_ok hcls'
+    have hc := hcls
+    rw [clsOf] at hc
+    rw [hc] at this
+    exact (Option.some.inj this).symm
+  subst this
+  have e1 : (cn ∈ denseLike) = False := by
+    rcases hcn with h | h | h <;> subst h <;> decide
+  have e2 : (cn = "DepthwiseConv2D") = False := by
+    rcases hcn with h | h | h <;> subst h <;> decide
+  have e2s : (cn = "SeparableConv1D" ∨ cn = "SeparableConv2D") = False := by
+    rcases hcn with h | h | h <;> subst h <;> decide
+  simp only [e1, e2, e2s, if_false, hcn, if_true] at hb
+  obtain ⟨l2, hl2, hb⟩ := bind_ok hb
+  cases hb
+  have hr := quantizeRnn_spec hcls hkq hne hl2
+  simp only [if_true] at h
+  obtain ⟨l3, hl3, h⟩ := bind_ok h
+  cases h
+  exact hr.of_eff (fixRegistered_spec hl3) (by decide)
+
+/-! ## selected Bidirectional wrappers -/
+
+theorem getConfig_param {qc : Dict} {l e : PyVal} {c : String} (h : getConfig qc l c none = .ok e)
+    (p : String) : getConfig qc l c (some p) = paramOf e (some p) := by
+  unfold getConfig at h ⊢
+  obtain ⟨cfg, hcfg, h⟩ := bind_ok h
+  obtain ⟨nm, hnm, h⟩ := bind_ok h
+  obtain ⟨entry, hentry, h⟩ := bind_ok h
+  have : entry = e := by
+    unfold paramOf at h
+    cases h
+    rfl
+  subst this
+  simp only [hcfg, hnm, hentry, bind, Except.bind]
+
+theorem bidirInner_spec {look : Look} {bits icn : String} {e kq inner inner' : PyVal}
+    (he : look "QBidirectional" none = .ok e) (hicls : clsOf inner = some (.str icn))
+    (hkq : paramOf e (some "kernel_quantizer") = .ok kq) (hne : kq ≠ .none)
+    (h : bidirInner look bits inner = .ok inner') :
+    RnnConverted (fun _ p => paramOf e p) icn kq inner inner' := by
+  unfold bidirInner at h
+  obtain ⟨c, _, h⟩ := bind_ok h
+  obtain ⟨iname, _, h⟩ := bind_ok h
+  obtain ⟨e', he', h⟩ := bind_ok h
+  rw [he] at he'
+  cases he'
+  obtain ⟨u, _, h⟩ := bind_ok h
+  exact quantizeRnn_spec hicls hkq hne h
+
+/-- A Bidirectional wrapper whose `QBidirectional` lookup `e` (name entry first, then the class
+    entry) provides a kernel quantizer becomes a QBidirectional whose wrapped layer — and backward
+    layer, if it has an explicit one — is converted by `quantize_rnn` with the quantizers of that
+    same entry (`RnnConverted` with the lookup `paramOf e`); no config key of the wrapper other
+    than `layer` / `backward_layer` changes. -/
+theorem C12_selected_bidirectional (F : Flags) (qc : Dict) (st st' : Option String) (l l' : PyVal)
+    (hcls : clsOf l = some (.str "Bidirectional")) (e kq : PyVal)
+    (he : getConfig qc l "QBidirectional" none = .ok e)
+    (hkq : paramOf e (some "kernel_quantizer") = .ok kq) (hne : kq ≠ .none)
+    (h : step F qc st l = .ok (l', st')) :
+    clsOf l' = some (.str "QBidirectional") ∧
+    (∀ inner icn, cfgGet l "layer" = some inner → clsOf inner = some (.str icn) →
+      ∃ inner', cfgGet l' "layer" = some inner' ∧ RnnConverted (fun _ p => paramOf e p) icn kq inner inner') ∧
+    (∀ binner bcn, cfgGet l "backward_layer" = some binner → clsOf binner = some (.str bcn) →
+      ∃ binner', cfgGet l' "backward_layer" = some binner' ∧
+        RnnConverted (fun _ p => paramOf e p) bcn kq binner binner') ∧
+    (∀ k, k ≠ "layer" → k ≠ "backward_layer" → cfgGet l' k = cfgGet l k) := by
+  unfold step stepCore at h
+  obtain ⟨r, hb, h⟩ := bind_ok h
+  obtain ⟨l1, st1, fin⟩ := r
+  unfold branch at hb
+  obtain ⟨c0, hc0, hb⟩ := bind_ok hb
+  obtain ⟨cls, hcls', hb⟩ := bind_ok hb
+  have : cls = .str "Bidirectional" := by
+    have := sub_ok hcls'
+    have hc := hcls
+    rw [clsOf] at hc
+    rw [hc] at this
+    exact (Option.some.inj this).symm
+  subst this
+  simp only [show ("Bidirectional" ∈ denseLike) = False by decide,
+    show ("Bidirectional" = "DepthwiseConv2D") = False by decide,
+    show ("Bidirectional" = "SeparableConv1D" ∨ "Bidirectional" = "SeparableConv2D") = False by decide,
+    show ("Bidirectional" = "SimpleRNN" ∨ "Bidirectional" = "LSTM" ∨ "Bidirectional" = "GRU") = False by decide,
+    if_false, if_true] at hb
+  unfold bidirBranch at hb
+  obtain ⟨kq', hkq', hb⟩ := bind_ok hb
+  rw [getConfig_param he, hkq] at hkq'
+  cases hkq'
+  have hmain : fin = true ∧ bidirApply F (getConfig qc l) l = .ok l1 := by
+    cases kq with
+    | none => exact absurd rfl hne
+    | bool _ | num _ _ | str _ | list _ | dict _ =>
+      all_goals
+        simp only at hb
+        obtain ⟨l2, hl2, hb⟩ := bind_ok hb
+        cases hb
+        exact ⟨rfl, hl2⟩
+  obtain ⟨hfin, happ⟩ := hmain
+  subst hfin
+  simp only [if_true] at h
+  obtain ⟨l5, hl5, h⟩ := bind_ok h
+  cases h
+  have efix := fixRegistered_spec hl5
+  have hfr := Ok_bidirApply (ks := ["layer", "backward_layer"]) (ts := ["class_name"]) (l := l) (F := F)
+    (look := getConfig qc l) (by decide) (by decide) (by decide) l1 happ
+  unfold bidirApply at happ
+  obtain ⟨cfg, hcfg, happ⟩ := bind_ok happ
+  obtain ⟨inner0, hinner0, happ⟩ := bind_ok happ
+  obtain ⟨inner0', hinner0', happ⟩ := bind_ok happ
+  obtain ⟨l2, hl2, happ⟩ := bind_ok happ
+  obtain ⟨l3, hl3, happ⟩ := bind_ok happ
+  have s2 := setCfg_spec hl2
+  have s4 := setCls_spec happ
+  have hinnerv : cfgGet l "layer" = some inner0 := by
+    simp [cfgGet, sub_ok hcfg, sub_ok hinner0]
+  -- the backward step
+  have hback : cfgGet l3 "layer" = some inner0' ∧
+      (∀ binner bcn, cfgGet l "backward_layer" = some binner → clsOf binner = some (.str bcn) →
+        ∃ binner', cfgGet l3 "backward_layer" = some binner' ∧
+          RnnConverted (fun _ p => paramOf e p) bcn kq binner binner') := by
+    unfold bidirBackward at hl3
+    obtain ⟨cfg2, hcfg2, hl3⟩ := bind_ok hl3
+    have hcfg2' := sub_ok hcfg2
+    cases cfg2 with
+    | dict d =>
+      simp only at hl3
+      cases hbk : dget d "backward_layer" with
+      | none =>
+        simp only [hbk] at hl3
+        cases hl3
+        refine ⟨s2.1, fun binner bcn hbi _ => ?_⟩
+        rw [← s2.2.1 _ (by decide)] at hbi
+        simp [cfgGet, hcfg2', hbk] at hbi
+      | some binner0 =>
+        simp only [hbk] at hl3
+        obtain ⟨binner0', hb0, hl3⟩ := bind_ok hl3
+        have s3 := setCfg_spec hl3
+        refine ⟨by rw [s3.2.1 _ (by decide)]; exact s2.1, fun binner bcn hbi hbc => ?_⟩
+        rw [← s2.2.1 _ (by decide)] at hbi
+        have : binner = binner0 := by
+          simp [cfgGet, hcfg2', hbk] at hbi
+          exact hbi.symm
+        subst this
+        exact ⟨binner0', s3.1, bidirInner_spec he hbc hkq hne hb0⟩
+    | none | bool _ | num _ _ | str _ | list _ =>
+      all_goals
+        simp only at hl3
+        cases hl3
+  have top4 : ∀ k, cfgGet l1 k = cfgGet l3 k := fun k => cfgGet_of_top (s4.2 "config" (by decide)) k
+  have efc : ∀ k, cfgGet l' k = cfgGet l1 k := fun k => efix.cfg k (by simp)
+  refine ⟨?_, ?_, ?_, ?_⟩
+  · rw [clsOf, efix.top "class_name" (by decide) (by decide)]
+    exact s4.1
+  · intro inner icn hi hic
+    rw [hinnerv] at hi
+    cases hi
+    exact ⟨inner0', by rw [efc, top4]; exact hback.1, bidirInner_spec he hic hkq hne hinner0'⟩
+  · intro binner bcn hbi hbc
+    obtain ⟨b', hb1, hb2⟩ := hback.2 binner bcn hbi hbc
+    exact ⟨b', by rw [efc, top4]; exact hb1, hb2⟩
+  · intro k hk1 hk2
+    rw [efc]
+    exact hfr.cfg k (by simp [hk1, hk2])
+
+
+/-! ## non-vacuity of the per-branch "selected" theorems: concrete layers meeting the hypotheses,
+    and what the model returns on them -/
+
+def pool0 : PyVal := .dict [("class_name", .str "AveragePooling2D"),
+  ("config", .dict [("name", .str "p1"), ("pool_size", .list [.num 2 0, .num 2 0])]), ("registered_name", .none)]
+def qcPool : Dict := [("QAveragePooling2D", .dict [("average_quantizer", .str "quantized_bits(4,0,1)"),
+  ("activation_quantizer", .str "quantized_bits(8,0,1)")])]
+
+example : clsOf pool0 = some (.str "AveragePooling2D") ∧
+    getConfig qcPool pool0 ("Q" ++ "AveragePooling2D") (some "average_quantizer") = .ok (.str "quantized_bits(4,0,1)") ∧
+    (rewrite F0 qcPool [pool0]).toOption.map (fun ls => ls.map fun l =>
+      (clsOf l, cfgGet l "average_quantizer", cfgGet l "activation", cfgGet l "pool_size")) =
+    some [(some (.str "QAveragePooling2D"), some (.str "quantized_bits(4,0,1)"), some (.str "quantized_bits(8,0,1)"),
+           some (.list [.num 2 0, .num 2 0]))] := ⟨rfl, rfl, rfl⟩
+
+def bn0 : PyVal := .dict [("class_name", .str "BatchNormalization"),
+  ("config", .dict [("name", .str "bn"), ("momentum", .num 99 2), ("center", .bool true)]),
+  ("registered_name", .none)]
+def qcBn : Dict := [("QBatchNormalization", .dict [("gamma_quantizer", .str "quantized_po2(6)")])]
+
+example : clsOf bn0 = some (.str "BatchNormalization") ∧ nameOf bn0 = some (.str "bn") ∧
+    (dget qcBn "QBatchNormalization").isSome = true ∧
+    (rewrite F0 qcBn [bn0]).toOption.map (fun ls => ls.map fun l =>
+      (clsOf l, cfgGet l "gamma_quantizer", cfgGet l "beta_quantizer", cfgGet l "momentum")) =
+    some [(some (.str "QBatchNormalization"), some (.str "quantized_po2(6)"), some .none, some (.num 99 2))] :=
+  ⟨rfl, rfl, rfl, rfl⟩
+
+def act0 : PyVal := .dict [("class_name", .str "Activation"),
+  ("config", .dict [("name", .str "a1"), ("activation", .str "relu")]), ("registered_name", .none)]
+def qcActMap : Dict := [("QActivation", .dict [("relu", .str "quantized_relu(6,2)")])]
+
+example : clsOf act0 = some (.str "Activation") ∧
+    getConfig [("a1", .str "quantized_relu(4)")] act0 "QActivation" none = .ok (.str "quantized_relu(4)") ∧
+    getConfig qcActMap act0 "QActivation" none = .ok (.dict [("relu", .str "quantized_relu(6,2)")]) ∧
+    cfgGet act0 "activation" = some (.str "relu") ∧
+    (rewrite F0 qcActMap [act0]).toOption.map (fun ls => ls.map fun l => (clsOf l, cfgGet l "activation")) =
+      some [(some (.str "QActivation"), some (.str "quantized_relu(6,2)"))] := ⟨rfl, rfl, rfl, rfl, rfl⟩
+
+def lstm0 : PyVal := .dict [("class_name", .str "LSTM"),
+  ("config", .dict [("name", .str "ls"), ("units", .num 2 0), ("use_bias", .bool true),
+                    ("activation", .str "tanh")]), ("registered_name", .none)]
+def qcRnn : Dict := [("QLSTM", .dict [("kernel_quantizer", .str "quantized_bits(4,0,1)"),
+  ("recurrent_quantizer", .str "ternary()"), ("bias_quantizer", .str "quantized_bits(4)")])]
+
+example : clsOf lstm0 = some (.str "LSTM") ∧
+    getConfig qcRnn lstm0 ("Q" ++ "LSTM") (some "kernel_quantizer") = .ok (.str "quantized_bits(4,0,1)") ∧
+    (rewrite F0 qcRnn [lstm0]).toOption.map (fun ls => ls.map fun l =>
+      (clsOf l, cfgGet l "kernel_quantizer", cfgGet l "recurrent_quantizer", cfgGet l "bias_quantizer",
+       cfgGet l "state_quantizer", cfgGet l "activation", cfgGet l "units")) =
+    some [(some (.str "QLSTM"), some (.str "quantized_bits(4,0,1)"), some (.str "ternary()"),
+           some (.str "quantized_bits(4)"), some .none, some (.str "quantized_tanh(4)"), some (.num 2 0))] :=
+  ⟨rfl, rfl, rfl⟩
+
+/-! ## defects repaired in the fix round: the former counterexamples as regression witnesses -/
 
 def bidir : PyVal := .dict [("class_name", .str "Bidirectional"),
   ("config", .dict [("name", .str "bi"), ("layer", .dict [("class_name", .str "LSTM"),
@@ -869,14 +1795,51 @@ def bidir : PyVal := .dict [("class_name", .str "Bidirectional"),
                         ("activation", .str "tanh")]), ("registered_name", .none)]),
     ("merge_mode", .str "concat")]), ("registered_name", .none)]
 
-/-- Bidirectional (finding C12-bidirectional-always-renamed): not selected by anything, yet the
-    class becomes QBidirectional (the inner layer stays an unquantized LSTM). -/
-theorem C12_untouched_bidirectional_counterexample :
-    NotSelected [] bidir "Bidirectional" "bi" ∧
-    (rewrite F0 [] [bidir]).toOption.map (fun ls => ls.map fun l =>
-        (clsOf l, (cfgGet l "layer").bind clsOf)) =
-      some [(some (.str "QBidirectional"), some (.str "LSTM"))] := by
-  exact ⟨⟨rfl, rfl, rfl, by decide⟩, rfl⟩
+/-- Bidirectional (former finding C12-bidirectional-always-renamed, where the result was a
+    `QBidirectional` around a plain `LSTM`): a wrapper that nothing selects is returned as it is —
+    an instance of `C12_untouched_partial`, which no longer excludes Bidirectional. -/
+theorem C12_bidirectional_fixed_witness :
+    NotSelected [] bidir "Bidirectional" "bi" ∧ rewrite F0 [] [bidir] = .ok [bidir] ∧
+    rewrite F0 qcBoth [bidir] = .ok [bidir] := by
+  exact ⟨⟨rfl, rfl, rfl, by decide⟩, rfl, rfl⟩
+
+/-- … while a wrapper selected by a `QBidirectional` entry is still converted, inner layer included -/
+example : (rewrite F0 [("QBidirectional", .dict [("kernel_quantizer", .str "quantized_bits(4,0,1)"),
+        ("recurrent_quantizer", .str "ternary()")])] [bidir]).toOption.map (fun ls => ls.map fun l =>
+      (clsOf l, (cfgGet l "layer").bind clsOf, (cfgGet l "layer").bind (cfgGet · "kernel_quantizer"),
+       (cfgGet l "layer").bind (cfgGet · "bias_quantizer"))) =
+    some [(some (.str "QBidirectional"), some (.str "QLSTM"), some (.str "quantized_bits(4,0,1)"),
+           some .none)] := by rfl
+
+/-- hypotheses of `C12_selected_bidirectional` on the wrapper `bidir` (its conclusion on this wrapper is the
+    `example` just above) -/
+example : getConfig [("bi", .dict [("kernel_quantizer", .str "binary()")])] bidir "QBidirectional" none =
+      .ok (.dict [("kernel_quantizer", .str "binary()")]) ∧
+    paramOf (.dict [("kernel_quantizer", .str "binary()")]) (some "kernel_quantizer") = .ok (.str "binary()") :=
+  ⟨rfl, rfl⟩
+
+def custom : PyVal := .dict [("class_name", .str "Twice"), ("config", .dict [("name", .str "tw")]),
+  ("registered_name", .str "qkv>Twice")]
+
+/-- registered_name (former finding C12-registered-name-stale-qname, where the custom layer after a
+    converted Dense came out with `registered_name = "QDense"` and the custom layer first raised
+    `UnboundLocalError`): the registered name of an unselected custom layer survives in both
+    orders, and the conversion of the Dense layer is not disturbed. -/
+theorem C12_registered_fixed_witness :
+    (rewrite F0 qcBoth [dense0, custom]).toOption.map (fun ls => ls.map fun l =>
+        (clsOf l, pget l "registered_name")) =
+      some [(some (.str "QDense"), none), (some (.str "Twice"), some (.str "qkv>Twice"))] ∧
+    (rewrite F0 qcBoth [custom, dense0]).toOption.map (fun ls => ls.map fun l =>
+        (clsOf l, pget l "registered_name")) =
+      some [(some (.str "Twice"), some (.str "qkv>Twice")), (some (.str "QDense"), none)] ∧
+    rewrite F0 [] [custom] = .ok [reRegistered custom] := by
+  exact ⟨rfl, rfl, rfl⟩
+
+/-- non-vacuity of the third disjunct of `C12_untouched_partial` -/
+example : NotSelected qcBoth custom "Twice" "tw" ∧ truthy ((pget custom "registered_name").getD .none) = true :=
+  ⟨⟨rfl, rfl, rfl, by decide⟩, rfl⟩
+
+/-! ## the defect that is still recorded (mirrored by the model) -/
 
 def conv0 : PyVal := .dict [("class_name", .str "Conv2D"),
   ("config", .dict [("name", .str "c1"), ("filters", .num 2 0), ("use_bias", .bool false),
@@ -891,17 +1854,5 @@ theorem C12_folding_unselected_counterexample :
         (clsOf l, cfgGet l "use_bias", cfgGet l "folding_mode", cfgGet l "ema_freeze_delay")) =
       some [(some (.str "Conv2D"), some (.bool true), some (.str "ema_stats_folding"), some .none)] := by
   exact ⟨⟨rfl, rfl, rfl, by decide⟩, rfl⟩
-
-def custom : PyVal := .dict [("class_name", .str "Twice"), ("config", .dict [("name", .str "tw")]),
-  ("registered_name", .str "qkv>Twice")]
-
-/-- registered_name (finding C12-registered-name-stale-qname): an unselected layer of a registered
-    custom class is re-labelled with the q_name left over from an earlier layer; with no earlier
-    q_name the loop raises UnboundLocalError. -/
-theorem C12_registered_counterexample :
-    (rewrite F0 qcBoth [dense0, custom]).toOption.map (fun ls => ls.map fun l => pget l "registered_name") =
-      some [none, some (.str "QDense")] ∧
-    rewrite F0 qcBoth [custom, dense0] = .error .unboundLocal := by
-  exact ⟨rfl, rfl⟩
 
 end QKV.Props.C12
